@@ -7,7 +7,7 @@ from ..effects import Engine
 from .common import where
 
 
-def run_block(chk, repo, rid_prefix, q, kind):
+def run_block(chk, repo, rid_prefix, q, kind, single_rule=None):
     fi = repo.func(q)
     items = []
 
@@ -21,7 +21,7 @@ def run_block(chk, repo, rid_prefix, q, kind):
              'dummy': 'R3', 'restrict': 'R4'}
     seen = {}
     for k, node, ok, text in items:
-        rid = f'{rid_prefix}.{rules[k]}'
+        rid = single_rule or f'{rid_prefix}.{rules[k]}'
         base = f'{rid}|{q}|{k}|{text[:200]}'
         seen[base] = seen.get(base, 0) + 1
         chk.ob(rid, where(repo, fi, node), f'{fi.name}: {text[:160]}', ok, text,
